@@ -328,12 +328,13 @@ def case_fhmruvv(log, variations):
         log.inconclusive.append("FHMRUVV: no path with an accepted nf")
 
 
-def case_fhmruvv_mean(log, nf):
-    """central variation == mean(upper, lower), identity in N (mode a)"""
+def case_fhmruvv_mean(log, names):
+    """central variation == mean(upper, lower), identity in N (mode a) and nf (symbolic; the code forks on nf == 3, 4, 5:
+    keeping nf symbolic keeps the decimal coefficients exact instead of rounding their products with nf in floats)"""
     ad = E.mod(SL)
     fh = ad.as4.fhmruvv
-    names = ["gamma_gg", "gamma_gq", "gamma_qg", "gamma_ps", "gamma_nsp", "gamma_nsm", "gamma_nsv"]
     log.encode(*[getattr(fh, n) for n in names])
+    seen = set()
 
     def run():
         E.unpatch()
@@ -341,16 +342,22 @@ def case_fhmruvv_mean(log, nf):
         stub = E.install_psi()
         c = E.mod("ekore.harmonics.cache")
         N = SR.var("N")
+        nf = SR.var("nf")
         assume(N - 2, ">=0")
-        for n in names:
-            f = getattr(fh, n)
-            v0, v1, v2 = (f(N, nf, c.reset(), i) for i in (0, 1, 2))
-            v = prove_zero(_sr(v0) - (_sr(v1) + _sr(v2)) / 2, "fhmruvv.%s: variation 0 == mean(variation 1, variation 2) for all N (nf=%d)" % (n, nf))
-            E.decide(log, v, "fhmruvv.%s:mean" % n, replay=(MOD, "replay_mean", {"name": n, "nf": nf}), sampler=lambda rng: {"N": rnd(rng, 2.1, 30)})
-            # any other index is the central one
-            v9 = f(N, nf, c.reset(), 7)
-            v = prove_zero(_sr(v9) - _sr(v0), "fhmruvv.%s: unknown variation index falls back to the central value (nf=%d)" % (n, nf))
-            E.decide(log, v, "fhmruvv.%s:mean" % n, replay=(MOD, "replay_mean", {"name": n, "nf": nf}), sampler=lambda rng: {"N": rnd(rng, 2.1, 30)})
+        E.box(nf, 3, 5)
+        try:
+            for n in names:
+                f = getattr(fh, n)
+                v0, v1, v2 = (f(N, nf, c.reset(), i) for i in (0, 1, 2))
+                v = prove_zero(_sr(v0) - (_sr(v1) + _sr(v2)) / 2, "fhmruvv.%s: variation 0 == mean(variation 1, variation 2) for all N, nf in {3,4,5}" % n)
+                E.decide(log, v, "fhmruvv.%s:mean" % n, replay=(MOD, "replay_mean", {"name": n}), sampler=_mean_sampler)
+                # any other index is the central one
+                v9 = f(N, nf, c.reset(), 7)
+                v = prove_zero(_sr(v9) - _sr(v0), "fhmruvv.%s: an unknown variation index falls back to the central value" % n)
+                E.decide(log, v, "fhmruvv.%s:mean" % n, replay=(MOD, "replay_mean", {"name": n}), sampler=_mean_sampler)
+            seen.add("ok")
+        except NotImplementedError as e:
+            log.assume("FHMRUVV: nf outside {3,4,5} raises NotImplementedError (%s)" % e)
         E.twin(log)
         log.collect_ctx()
         for s_ in sorted(stub.instances):
@@ -358,6 +365,12 @@ def case_fhmruvv_mean(log, nf):
 
     _r, pm = explore(run)
     log.path_stats(pm)
+    if "ok" not in seen:
+        log.inconclusive.append("FHMRUVV mean: no accepted path")
+
+
+def _mean_sampler(rng):
+    return {"N": rnd(rng, 2.1, 30), "nf": Fraction(rng.choice([3, 4, 5]))}
 
 
 # ---------------------------------------------------------------------------
@@ -570,12 +583,13 @@ def _replay_qed(point, order, combo, fh, grid):
     return None
 
 
-def replay_mean(point, name, nf):
+def replay_mean(point, name):
     import ekore.anomalous_dimensions.unpolarized.space_like.as4.fhmruvv as fh
     from ekore.harmonics import cache as c
 
     x = float(point.get("N", 4.4))
-    if x < 2:
+    nf = int(round(float(point.get("nf", 4))))
+    if x < 2 or nf not in (3, 4, 5):
         return None
     f = getattr(fh, name)
     for N in (complex(x), complex(x, 3.5), complex(x + 1, -17.0)):
@@ -611,8 +625,8 @@ def main():
     chk.case("sl.as4.variations", case_as4_variations, full=False)
     fhv = [(v,) * 7 for v in (0, 1, 2)]
     chk.case("sl.fhmruvv", case_fhmruvv, variations=fhv)
-    for nf in (3, 4, 5):
-        chk.case("fhmruvv.mean.nf%d" % nf, case_fhmruvv_mean, nf=nf)
+    chk.case("fhmruvv.mean.singlet", case_fhmruvv_mean, names=["gamma_gg", "gamma_gq", "gamma_qg", "gamma_ps"])
+    chk.case("fhmruvv.mean.ns", case_fhmruvv_mean, names=["gamma_nsp", "gamma_nsm", "gamma_nsv"])
     chk.case("qed.o32", case_qed, order=(3, 2), fh=True, nfs=[3, 4, 5, 6])
     chk.case("qed.o42.fhmruvv", case_qed, order=(4, 2), fh=True, nfs=[3, 4, 5])
     chk.case("qed.o42.as4", case_qed, order=(4, 2), fh=False, nfs=[3, 4, 5])
